@@ -11,7 +11,7 @@ NAMES = ("p0", "p1")
 
 class DSim:
     def __init__(self, expected=(None, None), can_dilate=(("ged",), ("ged",)), half=False, app=True, max_links=4,
-                 listen_late=False, stoppable=False, ping_interval=30.0, both_write=False, sides=("aa" * 8, "bb" * 8), peer_inert=False, throttle=False, no_listen=(False, False), silent_after_connect=False, lose_any=False, big_write=False, lazy_tcp=False):
+                 listen_late=False, stoppable=False, ping_interval=30.0, both_write=False, sides=("aa" * 8, "bb" * 8), peer_inert=False, throttle=False, no_listen=(False, False), silent_after_connect=False, lose_any=False, big_write=False, lazy_tcp=False, late_loss_report=False):
         self.w = self.make_world(sides=sides, expected=expected, can_dilate=can_dilate, ping_interval=ping_interval, no_listen=no_listen)
         self.w.__enter__()
         self.w.inert = peer_inert
@@ -25,6 +25,7 @@ class DSim:
         self.peer_inert = peer_inert     # an old peer without dilation support: never starts, never answers
         self.silent_after_connect = silent_after_connect   # canonical run: the link goes silent after convergence until the leader's monitor gives up
         self.listen_late = listen_late
+        self.late_loss_report = late_loss_report   # the two ends of a link learn of its loss separately, the Leader's end as late as possible (canonical run)
         self.started = [False, False]
         self.stopped_req = [False, False]
         self.trace = []
@@ -104,6 +105,15 @@ class DSim:
         for t in w.net.closing:
             if ("lose", t.link) not in acts:
                 acts.append(("lose", t.link))
+        if self.late_loss_report:
+            # a link somebody hung up on: each end learns of the loss on its own (the end that did not hang up first)
+            ends = []
+            for t in w.net.closing:
+                for x in (t.peer, t):
+                    if not x.lost and ("lose1", x.link, x.end) not in ends:
+                        ends.append(("lose1", x.link, x.end))
+            ends.sort(key=lambda a: 1 if self._is_leader_end(a[1], a[2]) else 0)
+            acts += ends
         for (a, b) in w.net.links:
             for t in (a, b):
                 if t.prod_paused and t.producer is not None and not t.lost:
@@ -138,6 +148,14 @@ class DSim:
             if self.both_write and self.bconnect_d is None and not self.stopped_req[1]:
                 acts.append(("bconnect",))
         return acts
+
+    def _is_leader_end(self, link, end):
+        for (a, b) in self.w.net.links:
+            for t in (a, b):
+                if t.link == link and t.end == end:
+                    p = getattr(t.proto, "_wrappedProtocol", t.proto)
+                    return getattr(p, "_role", None) is LEADER
+        return False
 
     def peer_proto(self, n):
         """the listener's protocol for subchannel n, while it is connected (not yet connectionLost)"""
@@ -189,7 +207,12 @@ class DSim:
                         t.drain()
         elif k == "lose":
             self.lost_count += 1
+            if not any(t.link == act[1] for t in w.net.closing):
+                # the network kills a link nobody had hung up on (the late loss report of a connection that was already closed is no new cause)
+                self.cause_losses = getattr(self, "cause_losses", 0) + 1
             w.lose(act[1])
+        elif k == "lose1":
+            w.lose_end(act[1], act[2])
         elif k == "turn":
             w.turn()
         elif k == "timer":
@@ -309,7 +332,9 @@ class DSim:
                 if ("timer",) in self.enabled():
                     self.do(("timer",))
                     out.append(("timer",))
-            run(net)
+            run(net + (["lose1"] if self.late_loss_report else []))
+            if self.late_loss_report:
+                return out
         if self.app and self.listen_late:
             # the peer opens two subchannels and writes to both before the local application registers its listeners
             for step in (("connect", "p0"), ("connect", "p1"), ("write", "p0"), ("write", "p1"), ("write", "p0"), ("listen", "p0"), ("listen", "p1"), ("write", "p1")):
